@@ -114,7 +114,43 @@ def parse_events(rng, sc, lha, hdr, tier, ev):
     return out
 
 
-def run(pid, tier, seed, ev, count, hostile_names=False, modes=("t", "x", "e", "p")):
+def glob_events(rng, sc, lha, hdr, tier, ev):
+    """the real wildcard matcher against Glob.tla, exhaustively over short patterns: one archive whose members are
+    named by every string of up to 3 characters over {a, b, ?, *}, every pattern of up to 3 (thorough: 5) characters
+    over {*, ?, a, b} (plus a sample of longer ones) as the only argument of `lha xn` / `lha pq2`"""
+    import itertools
+    names = [bytes(t) for L in (1, 2, 3) for t in itertools.product(b"ab?*", repeat=L)]
+    names += [b"d/" + n for n in (b"a", b"ab", b"?", b"b*")]
+    ms = [RG.G("file", n, data=n + b"\n", level=1 + (i % 2)) for i, n in enumerate(names)]
+    a, _ = RG.write_case(sc, "glob", ms, "eod")
+    members, p = LG.collect_members(hdr, [a], sc, "glob")
+    recs = members[0]
+    if len(recs) != len(ms):
+        raise V.HarnessError("glob archive: %d members written, %d listed" % (len(ms), len(recs)))
+    mm = []
+    for g, r in zip(ms, recs):
+        m = dict(r)
+        m.update(produced=len(g.data), good=True, data=list(g.data), exists=False)
+        mm.append(m)
+    maxl = 3 if tier == "quick" else 5
+    pats = [bytes(t) for L in range(1, maxl + 1) for t in itertools.product(b"*?ab", repeat=L)]
+    for _ in range(120 if tier == "quick" else 1500):
+        pats.append(bytes(rng.choice(b"**??ab/d") for _ in range(rng.randint(maxl + 1, 7))))
+    out = []
+    for k, pat in enumerate(pats):
+        word = "xn" if k % 2 else "pq2"
+        pr = subprocess.run([lha.encode(), word.encode(), a.encode(), pat], capture_output=True, env=V.run_env(), stdin=subprocess.DEVNULL, timeout=120, cwd=sc)
+        if pr.returncode < 0 or pr.returncode == 99:
+            raise V.HarnessError("lha %s with pattern %r died: %s" % (word, pat, pr.stderr.decode(errors="replace")[-300:]))
+        out.append({"e": "Run", "cmd": list(word.encode()), "filters": [list(pat)], "members": mm if word == "pq2" else [dict(m, data=[]) for m in mm],
+                    "out": list(pr.stdout), "code": pr.returncode, "archive": "glob.lzh"})
+    ev.add("wildcard_patterns_exhaustive_up_to_length", maxl)
+    ev.add("wildcard_patterns_tried", len(pats))
+    ev.cls(("glob", maxl))
+    return out
+
+
+def run(pid, tier, seed, ev, count, hostile_names=False, modes=("t", "x", "e", "p"), globs=False):
     rng = random.Random(seed ^ 0xC11)
     sc = V.scratch(pid.lower() + "cli")
     lha = V.lha_binary("san")
@@ -181,6 +217,8 @@ def run(pid, tier, seed, ev, count, hostile_names=False, modes=("t", "x", "e", "
             ev.cls(("cli", mode, opts, bool(filters)))
             shutil.rmtree(xd, ignore_errors=True)
     events += parse_events(rng, sc, lha, hdr, tier, ev)
+    if globs:
+        events += glob_events(rng, sc, lha, hdr, tier, ev)
     nsh = min(V.NCPU, max(1, len(events) // 4))
     results = []
     for k in range(nsh):
